@@ -48,7 +48,7 @@
        about the caller's assets, not about the script's execution, and it needs no [isel]).
      interp_is_recursive: work-list evaluator = recursive evaluator, every ms and stack, no INoFuel.
    Each clause is additionally checked per run by the oracle (tools/props/c13.py). *)
-From Verif Require Import Spend InterpTxdataModel InterpTxdataProofs InterpTxdataAll InterpTxdataKeys InterpTxdataWitness.
+From Verif Require Import Spend InterpTxdataModel InterpTxdataProofs InterpTxdataAll InterpTxdataKeys InterpTxdataPkh InterpTxdataWitness.
 From Verif Require Import Exec ExecTrace Ser Ast Types TypeCheck SatSpec TheoremA DenotSpec InterpModel InterpRefine InterpSound InterpWitness InterpComplete InterpDenot InterpMain InterpPolicy InterpGenuine.
 Local Open Scope N_scope.
 
@@ -269,11 +269,12 @@ Proof. exact iff_nonvacuous. Qed.
      from_txdata_interp_sound: the composition for every script-bearing arm, instantiated with the
        evaluator's soundness theorem (interp_sound_partial = InterpMain.interp_sound_env); the composition
        with [interp] only concerns script kinds, so it carries no _partial suffix.
-     from_txdata_interp_pk_sound_partial_{trkey,wpkh}: the composition with [interp_pk] for the taproot key
-       path, p2wpkh and sh-wpkh (the P2PKH script is executed in Coq: InterpTxdataKeys.p2pkh_exec).  MISSING
-       arms: p2pk, p2pkh (bare scripts for the specification; needs parse_script of a symbolic scriptPubKey).
-     from_txdata_complete_std_partial_{wsh,shwsh,sh,bare,tr,trkey,wpkh,shwpkh,pk}: every arm but one.
-       MISSING arm: p2pkh (same reason).
+     from_txdata_interp_pk_sound: the composition with [interp_pk] for EVERY key-only arm (tr key path, p2wpkh,
+       sh-wpkh, p2pkh, p2pk): the P2PKH / P2PK scripts are parsed from the symbolic scriptPubKey and executed in
+       Coq (InterpTxdataKeys.p2pkh_exec, InterpTxdataPkh.parse_p2pkh / parse_p2pk / p2pkh_exec_base / p2pk_exec_base).
+     from_txdata_complete_std_{wsh,shwsh,sh,bare,tr,trkey,wpkh,shwpkh,pkh,pk}: one theorem per arm, EVERY arm
+       (the hypotheses differ per arm -- which element must decode / parse --, hence a family, not one statement).
+     No theorem about from_txdata carries a _partial suffix any more.
    Taproot leaf version: from_txdata asks rust-bitcoin for the commitment of the control block only and never
    tests that the leaf version is 0xc0; the specification's [co] includes that test.  The equation keeps
    [co sb cb] as a factor ([cbok]); the composition assumes [f_commit fe sb cb = true -> co sb cb = true], i.e.
@@ -303,36 +304,56 @@ Theorem from_txdata_sound_script :
 Proof. exact from_txdata_sound_all. Qed.
 Print Assumptions from_txdata_sound_script.
 
-(* key-only kinds composed with the evaluator model for key-only outputs ([interp_pk]): taproot key path,
-   P2WPKH and P2SH-P2WPKH.  MISSING arms: p2pk, p2pkh (for the specification they are bare scripts: the
-   composition needs parse_script of the symbolic P2PK / P2PKH scriptPubKey). *)
-Theorem from_txdata_interp_pk_sound_partial_trkey :
+(* key-only kinds composed with the evaluator model for key-only outputs ([interp_pk]), EVERY key-only arm:
+   the model answers Ok(PublicKey(k, t)), interp_pk accepts on the stack handed over; except for the taproot key
+   path the key must be acceptable to the Script rules ([e_keyok]) and the scriptSig within the size bound; for
+   the witness-v0 kinds the key has 33 bytes  =>  verify_spend accepts *)
+Theorem from_txdata_interp_pk_sound :
+  forall e fe co spk ssig wit k t st code cs,
+    from_txdata e fe spk ssig wit = FOk (InPk k t) st code ->
+    interp_pk e k st = IAccept cs ->
+    (t <> PtTr -> e_keyok e k = true /\ N.leb (blen ssig) 1650 = true) ->
+    (t = PtWpkh \/ t = PtShWpkh -> N.eqb (blen k) 33 = true) ->
+    verify_spend e co spk ssig wit = true.
+Proof. exact from_txdata_interp_pk_sound_all. Qed.
+Print Assumptions from_txdata_interp_pk_sound.
+
+Theorem from_txdata_interp_pk_sound_trkey :
   forall e fe co spk ssig wit k st code cs,
     from_txdata e fe spk ssig wit = FOk (InPk k PtTr) st code ->
     interp_pk e k st = IAccept cs ->
     verify_spend e co spk ssig wit = true.
 Proof. exact from_txdata_interp_pk_trkey. Qed.
-Print Assumptions from_txdata_interp_pk_sound_partial_trkey.
+Print Assumptions from_txdata_interp_pk_sound_trkey.
 
-Theorem from_txdata_interp_pk_sound_partial_wpkh :
+Theorem from_txdata_interp_pk_sound_wpkh :
   forall e fe co spk ssig wit k t st code cs,
     from_txdata e fe spk ssig wit = FOk (InPk k t) st code -> t = PtWpkh \/ t = PtShWpkh ->
     interp_pk e k st = IAccept cs ->
     N.eqb (blen k) 33 = true -> e_keyok e k = true -> N.leb (blen ssig) 1650 = true ->
     verify_spend e co spk ssig wit = true.
 Proof. exact from_txdata_interp_pk_wpkh. Qed.
-Print Assumptions from_txdata_interp_pk_sound_partial_wpkh.
+Print Assumptions from_txdata_interp_pk_sound_wpkh.
 
-(* completeness, key-only arms.  MISSING arm: p2pkh. *)
-Theorem from_txdata_complete_std_partial_trkey :
+(* completeness, key-only arms (all five) *)
+Theorem from_txdata_complete_std_pkh :
+  forall e fe co spk ssig wit h k r c,
+    spk_is_p2pkh spk = Some h ->
+    ssig_stack_of ssig = Some (EPush k :: r) -> f_pk fe k = Some c ->
+    verify_spend e co spk ssig wit = true ->
+    from_txdata e fe spk ssig wit = FOk (InPk k PtPkh) r (Some spk).
+Proof. exact from_txdata_complete_pkh. Qed.
+Print Assumptions from_txdata_complete_std_pkh.
+
+Theorem from_txdata_complete_std_trkey :
   forall e fe co spk ssig wit k sg,
     spk_is_p2tr spk = Some k -> wit = [sg] ->
     verify_spend e co spk ssig wit = true -> f_xonly fe k = true ->
     from_txdata e fe spk ssig wit = FOk (InPk k PtTr) [elem_of sg] None.
 Proof. exact from_txdata_complete_trkey. Qed.
-Print Assumptions from_txdata_complete_std_partial_trkey.
+Print Assumptions from_txdata_complete_std_trkey.
 
-Theorem from_txdata_complete_std_partial_wpkh :
+Theorem from_txdata_complete_std_wpkh :
   forall e fe co spk ssig wit h,
     spk_is_p2wpkh spk = Some h ->
     verify_spend e co spk ssig wit = true ->
@@ -340,9 +361,9 @@ Theorem from_txdata_complete_std_partial_wpkh :
     exists k sg, wit = [sg; k] /\
                  from_txdata e fe spk ssig wit = FOk (InPk k PtWpkh) [elem_of sg] (Some (p2pkh_bytes (e_hash160 e k))).
 Proof. exact from_txdata_complete_wpkh. Qed.
-Print Assumptions from_txdata_complete_std_partial_wpkh.
+Print Assumptions from_txdata_complete_std_wpkh.
 
-Theorem from_txdata_complete_std_partial_shwpkh :
+Theorem from_txdata_complete_std_shwpkh :
   forall e fe co spk ssig wit h el r kh,
     spk_is_p2sh spk = Some h ->
     ssig_stack_of ssig = Some (el :: r) -> spk_is_p2wpkh (conc el) = Some kh ->
@@ -351,15 +372,15 @@ Theorem from_txdata_complete_std_partial_shwpkh :
     exists k sg, wit = [sg; k] /\
                  from_txdata e fe spk ssig wit = FOk (InPk k PtShWpkh) [elem_of sg] (Some (p2pkh_bytes (e_hash160 e k))).
 Proof. exact from_txdata_complete_shwpkh. Qed.
-Print Assumptions from_txdata_complete_std_partial_shwpkh.
+Print Assumptions from_txdata_complete_std_shwpkh.
 
-Theorem from_txdata_complete_std_partial_pk :
+Theorem from_txdata_complete_std_pk :
   forall e fe co spk ssig wit k st c,
     spk_is_p2pk spk = Some k -> ssig_stack_of ssig = Some st ->
     verify_spend e co spk ssig wit = true -> f_pk fe k = Some c ->
     from_txdata e fe spk ssig wit = FOk (InPk k PtPk) st (Some spk).
 Proof. exact from_txdata_complete_pk. Qed.
-Print Assumptions from_txdata_complete_std_partial_pk.
+Print Assumptions from_txdata_complete_std_pk.
 
 (* the same, arm by arm, with the body spelled out *)
 Theorem from_txdata_sound_wsh_eq :
@@ -377,21 +398,21 @@ Theorem from_txdata_sound_tr_eq :
 Proof. exact from_txdata_sound_tr. Qed.
 Print Assumptions from_txdata_sound_tr_eq.
 
-(* completeness, one theorem per script-bearing arm (with the key-only arms above: from_txdata_complete_std_partial_*;
-   MISSING arm: p2pkh).  Common shape: the specification accepts + the scriptSig lexes into pushes / OP_1
+(* completeness, one theorem per script-bearing arm (with the key-only arms above: from_txdata_complete_std_*,
+   every arm).  Common shape: the specification accepts + the scriptSig lexes into pushes / OP_1
    ([ssig_stack_of ssig = Some ..]; see from_txdata_opn_expected_push for why this is needed) + the library
    decodes the script element in the arm's context (+ taproot: keys / control block parse, commitment checks
    agree)  =>  the model answers Ok with that script, the rest of the stack and the script as script code. *)
-Theorem from_txdata_complete_std_partial_wsh :
+Theorem from_txdata_complete_std_wsh :
   forall e fe co spk ssig wit prog,
     spk_is_p2wsh spk = Some prog ->
     verify_spend e co spk ssig wit = true ->
     (forall sb, hd_error (rev wit) = Some sb -> f_dec fe DSegv0 sb = true) ->
     exists sb st, from_txdata e fe spk ssig wit = FOk (InScript sb StWsh) st (Some sb) /\ rev wit = sb :: map conc st.
 Proof. exact from_txdata_complete_wsh. Qed.
-Print Assumptions from_txdata_complete_std_partial_wsh.
+Print Assumptions from_txdata_complete_std_wsh.
 
-Theorem from_txdata_complete_std_partial_shwsh :
+Theorem from_txdata_complete_std_shwsh :
   forall e fe co spk ssig wit h el r prog,
     spk_is_p2sh spk = Some h ->
     ssig_stack_of ssig = Some (el :: r) -> spk_is_p2wsh (conc el) = Some prog ->
@@ -399,9 +420,9 @@ Theorem from_txdata_complete_std_partial_shwsh :
     (forall sb, hd_error (rev wit) = Some sb -> f_dec fe DSegv0 sb = true) ->
     exists sb st, from_txdata e fe spk ssig wit = FOk (InScript sb StShWsh) st (Some sb) /\ rev wit = sb :: map conc st.
 Proof. exact from_txdata_complete_shwsh. Qed.
-Print Assumptions from_txdata_complete_std_partial_shwsh.
+Print Assumptions from_txdata_complete_std_shwsh.
 
-Theorem from_txdata_complete_std_partial_sh :
+Theorem from_txdata_complete_std_sh :
   forall e fe co spk ssig wit h el r,
     spk_is_p2sh spk = Some h ->
     ssig_stack_of ssig = Some (el :: r) -> spk_is_p2wsh (conc el) = None -> spk_is_p2wpkh (conc el) = None ->
@@ -409,9 +430,9 @@ Theorem from_txdata_complete_std_partial_sh :
     f_dec fe DLegacy (conc el) = true ->
     from_txdata e fe spk ssig wit = FOk (InScript (conc el) StSh) r (Some (conc el)).
 Proof. exact from_txdata_complete_sh. Qed.
-Print Assumptions from_txdata_complete_std_partial_sh.
+Print Assumptions from_txdata_complete_std_sh.
 
-Theorem from_txdata_complete_std_partial_bare :
+Theorem from_txdata_complete_std_bare :
   forall e fe co spk ssig wit st,
     spk_is_p2pk spk = None -> spk_is_p2pkh spk = None -> spk_is_p2wpkh spk = None -> spk_is_p2wsh spk = None ->
     spk_is_p2tr spk = None -> spk_is_p2sh spk = None ->
@@ -420,9 +441,9 @@ Theorem from_txdata_complete_std_partial_bare :
     f_dec fe DBare spk = true ->
     from_txdata e fe spk ssig wit = FOk (InScript spk StBare) st (Some spk).
 Proof. exact from_txdata_complete_bare. Qed.
-Print Assumptions from_txdata_complete_std_partial_bare.
+Print Assumptions from_txdata_complete_std_bare.
 
-Theorem from_txdata_complete_std_partial_tr :
+Theorem from_txdata_complete_std_tr :
   forall e fe co spk ssig wit k cb sb items,
     spk_is_p2tr spk = Some k -> rev wit = cb :: sb :: items ->
     verify_spend e co spk ssig wit = true ->
@@ -430,7 +451,7 @@ Theorem from_txdata_complete_std_partial_tr :
     (co sb cb = true -> f_commit fe sb cb = true) ->
     exists st, from_txdata e fe spk ssig wit = FOk (InScript sb StTr) st (Some sb) /\ items = map conc st.
 Proof. exact from_txdata_complete_tr. Qed.
-Print Assumptions from_txdata_complete_std_partial_tr.
+Print Assumptions from_txdata_complete_std_tr.
 
 (* model of from_txdata answers Ok(Script ..) and the evaluator model accepts the decoded miniscript on the
    stack it was handed (hypotheses of interp_sound_partial, under the kind's signature version) and the kind's
